@@ -121,7 +121,7 @@ def spec_closure(pid):
     return sorted(t[:-1] for t in seen if t.startswith("Spec/"))
 
 
-def build_proofs(pid, cfg, log):
+def build_proofs(pid, cfg, log, tier="quick"):
     """returns dict(proof_ok, obligations, discharged, assumptions, problems)"""
     res = dict(proof_ok=False, obligations=0, discharged=0, assumptions={}, problems=[])
     with Lock("coq"):
@@ -173,6 +173,21 @@ def build_proofs(pid, cfg, log):
                         else:
                             res["problems"].append("theorem %s depends on axioms outside the allow-list: %s" % (name, ax))
                 res["discharged"] = disc
+    # thorough tier: re-check the compiled closure with the independent checker and read the axioms it reports
+    if tier == "thorough" and not res["problems"]:
+        with Lock("coq"):
+            t0 = time.time()
+            rc3, out3 = sh(["timeout", "3000", "coqchk", "-o", "-silent", "-Q", ".", "PV", "PV.Properties.%s" % pid], cwd=COQ, timeout=3100)
+        log.append("coqchk PV.Properties.%s: rc=%d in %.1fs" % (pid, rc3, time.time() - t0))
+        ax = re.search(r"\* Axioms:(.*?)\n\s*\n\* Constants/Inductives relying on type-in-type:(.*?)\n\s*\n\* Constants/Inductives relying on unsafe \(co\)fixpoints:(.*?)\n\s*\n\* Inductives whose positivity is assumed:(.*?)\n", out3 + "\n", re.S)
+        res["coqchk"] = "not parsed"
+        if rc3 != 0 or not ax:
+            res["problems"].append("coqchk failed on PV.Properties.%s: %s" % (pid, out3[-800:]))
+        else:
+            fields = [x.strip() for x in ax.groups()]
+            res["coqchk"] = "axioms: %s; type-in-type: %s; unsafe fixpoints: %s; assumed positivity: %s" % tuple(fields)
+            if any(f != "<none>" and not all(a in AXIOM_ALLOW for a in f.split()) for f in fields):
+                res["problems"].append("coqchk reports assumptions outside the allow-list: " + res["coqchk"])
     # statement pin
     lock = os.path.join(VERIF, "statements.lock")
     want = {}
@@ -453,7 +468,7 @@ def check(pid, tier="quick", seed=0, replay=None):
     os.makedirs(os.path.join(VERIF, "replays"), exist_ok=True)
     budget = cfg.get("case_seconds", 5)
 
-    proof = build_proofs(pid, cfg, log)
+    proof = build_proofs(pid, cfg, log, tier)
     driver = build_driver(pid, cfg, log)
     if driver:
         driver = [driver] + cfg.get("driver_args", [])
@@ -640,6 +655,7 @@ def check(pid, tier="quick", seed=0, replay=None):
                 "correspondence harness harness/src/bin/%s.rs (generator, isolation, canonical printer); x86_64, 64-bit usize" % cfg["bin"],
             ],
             "theorems": proof.get("theorems", []),
+            "coqchk": proof.get("coqchk", "not run in the quick tier"),
             "open_statements": cfg.get("open_statements", []),
             "proof_problems": proof["problems"],
             "infrastructure_problems": infra,
